@@ -222,6 +222,7 @@ type agg struct {
 	crashes     int
 	watchdog    int
 	raceReports int
+	raceAborts  int
 }
 
 func newAgg() *agg {
@@ -349,6 +350,10 @@ func runShard(b *build, prop, tier string, seed int64, shard, nshards int, a *ag
 			} else {
 				a.inconcl = append(a.inconcl, fmt.Sprintf("shard %d: watchdog fired in %s case %d, dump not conclusive", shard, open.Prog, open.Case))
 			}
+		} else if b.race && strings.Contains(st, "race detected during execution of test") && !strings.Contains(st, "panic: ") && !strings.Contains(st, "fatal error: ") {
+			// the testing package aborts the test function at the first bubble in which the detector fired;
+			// the report itself is in the GORACE log (counted above): carry on after that case
+			a.raceAborts++
 		} else {
 			a.crashes++
 			msg, frame := panicInfo(st)
@@ -795,6 +800,7 @@ func report(prop, tier string, seed int64, info propInfo, a *agg, b *build, buil
 	}
 	if info.Race {
 		cov["race_reports"] = a.raceReports
+		cov["race_aborted_shard_restarts"] = a.raceAborts
 	}
 	if info.Exhaustive != "" && a.crashes == 0 && len(a.inconcl) == 0 {
 		cov["exhaustive"] = true
